@@ -128,7 +128,8 @@ func c11Envs() []EnvSpec {
 				case 2:
 					funcs = []string{"rec-f", "rec-pf", "rec-vf", "rec-count", "rec-true", "rec-pos"}
 				}
-				envs = append(envs, EnvSpec{NS: ns, Funcs: funcs})
+				// every other environment is handed over by assigning caller-built maps
+				envs = append(envs, EnvSpec{NS: ns, Funcs: funcs, Assign: len(envs)%2 == 1})
 			}
 		}
 	}
@@ -279,7 +280,7 @@ func C11(c *run.Check) {
 	}
 	c.Sample(map[string]interface{}{"doc": adoc.Instantiate(jobs[len(jobs)-3].f, adoc.D3).String(), "expr": "//*[f(position(), last())]", "bindings": envs[5]})
 	c.Sample(map[string]interface{}{"doc": adoc.Instantiate(jobs[len(jobs)/2].f, adoc.D2).String(), "expr": "//@p:x", "bindings": envs[12]})
-	c.Rule = fmt.Sprintf("forests <=%d nodes x decorations with elements/attributes in namespaces urn:u/urn:v/default x %d binding environments (p,q each unbound/urn:u/urn:v incl. aliases; function library none / f,p:f / + q:f and user count() and true() shadowing builtins; variables of all four types in no namespace and in two namespaces) x %d expressions (prefixed and wildcard name tests on elements and attributes, variable references, user-function calls in paths, predicates and arguments, unbound prefix/variable/function, prefixed calls whose local name spells a core function); result compared with the reference evaluated under the same bindings, and the (arguments, context nodes, position, size) seen by the recording user functions compared as multisets; non-trivial = distinct (expression, context kind, result)", n, len(envs), len(exprs))
+	c.Rule = fmt.Sprintf("forests <=%d nodes x decorations with elements/attributes in namespaces urn:u/urn:v/default x %d binding environments (every other one handed over by ASSIGNING caller-built maps to the ContextSettings fields, as the command line tool does, the rest through WithNS/WithVariable/WithFunction; p,q each unbound/urn:u/urn:v incl. aliases; function library none / f,p:f / + q:f and user count() and true() shadowing builtins; variables of all four types in no namespace and in two namespaces) x %d expressions (prefixed and wildcard name tests on elements and attributes, variable references, user-function calls in paths, predicates and arguments, unbound prefix/variable/function, prefixed calls whose local name spells a core function); result compared with the reference evaluated under the same bindings, and the (arguments, context nodes, position, size) seen by the recording user functions compared as multisets; non-trivial = distinct (expression, context kind, result)", n, len(envs), len(exprs))
 	c.Set("environments", len(envs))
 	c.Set("documents", len(jobs))
 	c.Assume("the library's Context.ContextPosition() is 0-based (position()-1); unbound names appear only where every evaluator must evaluate them")
